@@ -284,6 +284,8 @@ void chk_conv(Ctx &c, const std::string &x, float mag) {
 
 std::string gen_str(Src &s, const char *alpha, size_t alen, size_t maxlen) {
     size_t len = s.pick({5, 3, 1}) == 0 ? (size_t)s.range(0, 6) : (size_t)s.range(0, (long)maxlen);
+    // rare edge class for every text argument: lengths at and next to the sizes an internal scratch buffer plausibly has
+    if (maxlen >= 30 && s.chance(1, 16)) { static const size_t edge[] = {256, 512, 1024, 1024, 2048, 4096, 8192}; len = edge[s.range(0, 6)] + (size_t)s.range(0, 4) - 2; }
     std::string r;
     for (size_t i = 0; i < len; i++) r.push_back(alpha[s.range(0, (long)alen - 1)]);
     return r;
